@@ -117,9 +117,10 @@ def main():
             for prop in props:
                 rc, nviol, info, wall = run_check(d, prop, a.tier)
                 caught = rc == 1 and nviol > 0
-                missed += 0 if caught else 1
+                expect = not drill.get("equivalent", False)
+                missed += 0 if caught == expect else 1
                 rec = {"id": drill["id"], "prop": prop, "tests_pass": tests_ok, "tests": tail,
-                       "exit": rc, "caught": caught, "info": info, "wall_s": wall, "tier": a.tier}
+                       "exit": rc, "caught": caught, "expected_caught": expect, "info": info, "wall_s": wall, "tier": a.tier}
                 print(json.dumps(rec))
                 with open(os.path.join(VERIF, "mutants", "RESULTS.jsonl"), "a", encoding="utf-8") as f:
                     f.write(json.dumps(rec) + "\n")
